@@ -1259,6 +1259,100 @@ Section Texts.
       apply (ident_unknown T stP t _ _ e CP KP); [rewrite EP; reflexivity|exact Ek|rewrite LP; exact Eg].
   Qed.
 
+  (* ---- later positions of a test list: after `<control> <list-test> ( t1, .., tk` a comma or ')' must come, and after
+     the comma the name of a test *)
+  Theorem test_list_later_rejected : forall text pre tn tl lp ttoks cm t rest L prev k d a dl al ts ns,
+    wf_prefix T (map strip_pos pre) L prev k ->
+    fst (lex text) = pre ++ tn :: tl :: lp :: ttoks ++ cm ++ t :: rest ->
+    t_kind tn = TIdentifier -> get_command_instance T L (t_val tn) = inl d ->
+    d_type d = CControl -> d_accept_children d = true -> d_args d = [a] -> is_t1 a = true ->
+    t_kind tl = TIdentifier -> get_command_instance T L (t_val tl) = inl dl -> d_type dl = CTest ->
+    d_args dl = [al] -> is_tl al = true -> d_expected_first dl = Some [TLeftParen] ->
+    t_kind lp = TLeftParen ->
+    ts <> [] -> Forall2 (wf_test T L) ts ns -> map strip_pos ttoks = toks_tests ts ->
+    (cm = [] \/ exists c, cm = [c] /\ strip_pos c = mk TComma [44%N]) ->
+    not_comment (t_kind t) = true ->
+    match cm with
+    | [] => kind_mem (t_kind t) [TComma; TRightParen] = false ->
+            parse T text = Reject EExpected (t_pos t) (length (t_val t))
+    | _ =>
+        match t_kind t with
+        | TIdentifier =>
+            match get_command_instance T L (t_val t) with
+            | inr e => parse T text = Reject e (t_pos t) (length (t_val t))
+            | inl d' => d_type d' <> CTest -> parse T text = Reject (ENotTest (d_name d')) (t_pos t) (length (t_val t))
+            end
+        | _ => parse T text = Reject EExpected (t_pos t) (length (t_val t))
+        end
+    end.
+  Proof.
+    intros text pre tn tl lp ttoks cm t rest L prev k d a dl al ts ns
+           Hp Hl Hkn Hg Hty Hch Ha Ht1 Hkl Hgl Htyl Hal Htl Hef Hklp Hne HF Htt Hcm Hnc.
+    destruct (prefix_ready T HT _ L prev k Hp) as (st & S1 & R1 & L1 & _).
+    assert (Htwl : twf dl = true) by (eapply gci_twf; eauto).
+    assert (HlN : listf dl al (at_of a) [] (new_frame dl (at_of a))).
+    { unfold listf. split; [apply fi_new_frame; exact Htwl|]. cbn. repeat split; reflexivity. }
+    destruct (listf_facts dl al (at_of a) Htwl Htyl Hal Htl [] _ HlN) as (_ & _ & _ & Hinc).
+    destruct (inner_test_position st L tn tl d a dl [lp] R1 L1 Hg Hkn Hty Hch Ha Ht1 Hkl Hgl Htyl Hinc
+                (or_introl (conj Hef (ex_intro _ lp (conj eq_refl Hklp)))))
+      as (stP & cur & rest0 & S2 & CP & KP & EP & LP).
+    (* the frames: the list test on top of the control that took it *)
+    assert (Hstack : exists N1, p_stack stP = new_frame dl (at_of a) :: N1 :: p_stack st).
+    { clear -S2 Hg Hkn Hty Hch Ha Ht1 Hkl Hgl Htyl Hinc Hef Hklp R1 L1 HT.
+      assert (Htw : twf d = true) by (eapply gci_twf; eauto).
+      destruct (after_name st L (t_val tn) d R1 L1 Hg ltac:(congruence)) as (st1 & P1 & C1 & K1 & Ld1 & E1).
+      assert (Hha : has_arguments d = true) by (unfold has_arguments; rewrite Ha; reflexivity).
+      rewrite Hty, Hch, Hha in E1. cbn in E1.
+      destruct (cna_t1_new L d (at_in (p_stack st)) a Htw Ha Ht1) as (N1 & EC & _).
+      pose proof (push_test T L st1 _ _ N1 a (t_val tl) dl K1 C1 ltac:(rewrite E1; reflexivity) Ld1 EC Hgl Htyl) as P2.
+      set (stL := with_stack (new_frame dl (at_of a) :: N1 :: p_stack st) (with_expected (d_expected_first dl) st1)) in *.
+      assert (EsL : p_stack stL = new_frame dl (at_of a) :: N1 :: p_stack st) by reflexivity.
+      rewrite (cc_incomplete stL _ _ false EsL Hinc) in P2.
+      assert (Etn : strip_pos tn = mk TIdentifier (t_val tn)) by (destruct tn; cbn in *; unfold strip_pos, mk; cbn; congruence).
+      assert (Etl : strip_pos tl = mk TIdentifier (t_val tl)) by (destruct tl; cbn in *; unfold strip_pos, mk; cbn; congruence).
+      assert (P3 : process T stL lp = MTrue (with_expected (Some [TIdentifier]) (with_brackets (BRParen :: p_brackets stL) (with_expected None stL)))).
+      { unfold process. rewrite Hklp. unfold stL at 1. pcbn. rewrite Hef. cbn [kind_mem tkind_eqb orb].
+        unfold m_command. pcbn. unfold stL at 1. pcbn. rewrite C1. unfold m_arguments. rewrite Hklp. reflexivity. }
+      cbn [map steps] in S2. rewrite Etn, P1, Etl, P2, process_strip, P3 in S2. inversion S2; subst stP.
+      exists N1. reflexivity. }
+    destruct Hstack as (N1 & EsP).
+    assert (HFp : Forall2 (Pst T L) ts ns).
+    { clear -HF HT. induction HF; constructor; [apply (run_test T L HT); assumption|assumption]. }
+    destruct (tests_loop T L dl al (at_of a) N1 (p_stack st) Htwl Htyl Hal Htl ts ns HFp Hne [] _ stP HlN eq_refl
+                (fun F HF0 => eq_trans HF0 (tl_at al Htl)) EsP CP EP LP)
+      as (Nf & stE & PE & LE & SE & CE & EE & VE).
+    assert (LdE : p_loaded stE = L) by (destruct VE as (_ & V2 & _); congruence).
+    assert (S3 : steps T p_init (map strip_pos (pre ++ tn :: tl :: lp :: ttoks)) = Some stE).
+    { rewrite map_app, steps_app, S1.
+      change (tn :: tl :: lp :: ttoks) with ((tn :: tl :: [lp]) ++ ttoks). rewrite map_app, steps_app, S2, Htt. exact PE. }
+    destruct Hcm as [-> |(c & -> & Hc)].
+    - intro Hbad. cbn [app] in Hl.
+      assert (Hl' : fst (lex text) = (pre ++ tn :: tl :: lp :: ttoks) ++ t :: rest).
+      { rewrite Hl. repeat (rewrite <- app_assoc; cbn [app]). reflexivity. }
+      apply (reject_after_prefix T text _ t rest stE EExpected Hl' S3).
+      apply (expected_mismatch T stE t [TComma; TRightParen] EE Hbad Hnc).
+    - set (stC := with_expected (Some [TIdentifier]) (with_expected None stE)).
+      assert (PCm : process T stE c = MTrue stC).
+      { rewrite <- process_strip, Hc. apply (process_comma_args T N1 (p_stack st) stE Nf SE CE EE). }
+      assert (Hl' : fst (lex text) = (pre ++ tn :: tl :: lp :: ttoks ++ [c]) ++ t :: rest).
+      { rewrite Hl. repeat (rewrite <- app_assoc; cbn [app]). reflexivity. }
+      assert (S4 : steps T p_init (map strip_pos (pre ++ tn :: tl :: lp :: ttoks ++ [c])) = Some stC).
+      { replace (pre ++ tn :: tl :: lp :: ttoks ++ [c]) with ((pre ++ tn :: tl :: lp :: ttoks) ++ [c])
+          by (repeat (rewrite <- app_assoc; cbn [app]); reflexivity).
+        rewrite map_app, steps_app, S3. cbn [map steps]. rewrite process_strip, PCm. reflexivity. }
+      assert (CC : p_cstate stC = CArgs) by (unfold stC; pcbn; exact CE).
+      assert (KC : p_stack stC = Nf :: N1 :: p_stack st) by (unfold stC; pcbn; exact SE).
+      assert (LC : p_loaded stC = L) by (unfold stC; pcbn; exact LdE).
+      destruct (t_kind t) eqn:Ek; try (cbn in Hnc; discriminate Hnc);
+        try (apply (reject_after_prefix T text _ t rest stC _ Hl' S4);
+             apply (expected_mismatch T stC t [TIdentifier] eq_refl); rewrite Ek; reflexivity).
+      destruct (get_command_instance T L (t_val t)) as [d'|e] eqn:Eg.
+      + intro Hnt. apply (reject_after_prefix T text _ t rest stC _ Hl' S4).
+        apply (ident_not_test T stC t _ _ d' CC KC); [reflexivity|exact Ek|rewrite LC; exact Eg|exact Hnt].
+      + apply (reject_after_prefix T text _ t rest stC _ Hl' S4).
+        apply (ident_unknown T stC t _ _ e CC KC); [reflexivity|exact Ek|rewrite LC; exact Eg].
+  Qed.
+
   (* ---- the arguments of a test: a string, number or tag that the test does not take at that point (an unknown
      tag, a tag whose extension is not loaded, a value of the wrong type), while the test still needs arguments *)
   Theorem test_argument_rejected : forall text pre tn tl a0toks t rest L prev k d a dl args0 fN ty,
